@@ -941,7 +941,8 @@ def check_C12(ctx):
                                     "non-trivial = a cycle with a column of at least two bars")
     ctx.assumptions = ["one decorator instance per bar (documented usage)"]
     frames_check(ctx, {"HM_SYNC", "HM_PUSH"}, M.c12_monitor, 300, 8000,
-                 {"Base.v", "Sync.v", "SyncProofs.v", "Decor.v", "DecorProofs.v", "Container.v", "ContainerProofs.v", "Props/C12.v"},
+                 {"Base.v", "Sync.v", "SyncProofs.v", "Decor.v", "DecorProofs.v", "Container.v", "ContainerProofs.v", "ContainerLife.v",
+                  "ContainerProgress.v", "ContainerMatrix.v", "Props/C12.v"},
                  nontrivial=lambda case, frames: any(" DIST_COLLECTED " in l and l.count(",") >= 2 for l in case["trace"]),
                  fams=[("frames", 0.5, True), ("sched", 0.5, True)])
 
@@ -1191,7 +1192,7 @@ def check_C10(ctx):
 
 
 # ---------------------------------------------------------------- C01 / C02
-LIFE_DEPS = CONT_DEPS | {"ContainerLife.v", "ContainerProgress.v", "GenChecks.v", "gen/GenApi.v", "Sync.v", "SyncProofs.v"}
+LIFE_DEPS = CONT_DEPS | {"ContainerLife.v", "ContainerProgress.v", "ContainerMatrix.v", "GenChecks.v", "gen/GenApi.v", "Sync.v", "SyncProofs.v"}
 
 
 def late_runs(ctx, n_quick, n_thorough):
